@@ -52,10 +52,11 @@ type X struct {
 	expd          map[types.Object]ast.Expr // memo of expandable boolean locals (nil entry: not expandable)
 	// Shaky is set by Reach when the only witnesses it found pass a branch on a call that is not
 	// evaluated and receives a tracked value: such a witness does not justify a violation.
-	Shaky bool
-	preds map[*ast.CallExpr]ast.Expr
-	roots []ast.Node // bodies of the callers when this is the table of an inlined helper (innermost first) // memo of one-line predicate helpers written out over their arguments
-	depth int
+	Shaky  bool
+	preds  map[*ast.CallExpr]ast.Expr
+	catoms *constAtoms
+	roots  []ast.Node // bodies of the callers when this is the table of an inlined helper (innermost first) // memo of one-line predicate helpers written out over their arguments
+	depth  int
 }
 
 // New indexes the switch statements and loops of g's body.
